@@ -1,10 +1,14 @@
 import Driver.Proto
 import Uft.Model.Demangle
+import Uft.Lemmas.DemangleMangle
 /- C13 driver.
    dm <hex|->      -> result of the repaired model (all repairs)
    dmpre <hex|->   -> result of the model of the code as it is (no repair)
    dmx <6 x 0|1> <hex|->  -> result with the selected repairs (F10 F10b F10c F10d F10e F10g)
    output: <hex|->  the returned string | NULL | CRASH <kind> | FUEL
+   mg <fn|ctor|dtor|op> <k hex | op code hex | -> <params hex|-> <name hex> <scope hex>*
+                   -> "<hex of mangle d> <hex of qualifiedName d>" for the `Decl` of the theorem
+                      c13_mangle_demangle_partial (the Lean `mangle` is compared with the compilers)
 -/
 namespace Driver.C13
 open Uft.Demangle
@@ -29,82 +33,26 @@ def runOn (fx : Fixes) (hex : String) : String :=
   | some bs => if bs.contains 0 then "bad-op" else showResult (demangle fx bs.toArray)
   | none => "bad-op"
 
-/-! ### run-time monitor of the per-function specifications proved in Lemmas/Demangle.lean
-   (`spec <hex>`): every call of a grammar function is checked against its summary. -/
+def mkLeaf (kind arg : String) : Option Leaf :=
+  match kind, parseHexBytes arg with
+  | "fn", _ => some .fn
+  | "ctor", some [k] => some (.ctor k)
+  | "dtor", some [k] => some (.dtor k)
+  | "op", some [a, b] => (Uft.Gen.DemangleTables.ops.find? fun o => o.1 == a && o.2.1 == b).map Leaf.op
+  | _, _ => none
 
-def delta : Fn → Nat
-  | .expression | .unresolvedName | .baseUnresolvedName | .simpleId | .exprList | .exprListLoop
-  | .exprLoop | .unresLoop => 1
-  | _ => 0
-
-def isLoop : Fn → Bool
-  | .encLoop | .nestedLoop | .ulLoop | .typeLoop _ | .ftLoop _ | .argLoop | .exprListLoop | .exprLoop
-  | .unresLoop => true
-  | _ => false
-
-def rank : Fn → Nat
-  | .simpleId => 1
-  | .baseUnresolvedName | .unresLoop => 2
-  | .unresolvedName => 3
-  | .expression => 4
-  | .exprListLoop | .exprLoop => 5
-  | .exprList => 6
-  | .exprPrimary | .decltype | .vectorType | .functionType | .arrayType | .ptrToMember | .templateArgs
-  | .ctorDtorName | .operatorName | .initializer | .localName | .nestedName | .specialName => 1
-  | .unresolvedType => 2
-  | .destructorName => 3
-  | .unqualifiedName => 2
-  | .name | .nestedLoop => 3
-  | .typeLoop _ => 4
-  | .type => 5
-  | .ulLoop | .ftLoop _ | .encLoop | .templateArg => 6
-  | .argLoop => 7
-  | .encoding => 7
-
-def fnName (f : Fn) : String := (toString (repr f)).replace "Uft.Demangle.Fn." ""
-
-def specViolations (f : Fn) (st : St) (r : Int) (st' : St) : List String :=
-  (if st'.pos + delta f < st.pos then ["lower"] else []) ++
-  (if st'.pos < st.pos && !st'.expected then ["dec-without-expected"] else []) ++
-  (if st.expected && !st'.expected then ["expected-reset"] else []) ++
-  (if r ≥ 0 && !isLoop f && st'.pos ≤ st.pos then ["success-without-progress"] else []) ++
-  (if r ≥ 0 && isLoop f && st'.pos < st.pos then ["loop-success-decrement"] else []) ++
-  (if st'.len > st.len then ["len-grew"] else []) ++
-  (if st'.pos > st'.len then ["pos>len"] else [])
-
-/-- `run` with every call checked; violations are reported through `dbgTrace` (stderr). -/
-def runChk : Nat → Fn → M Int
-  | 0, _ => fun _ _ => .fuel
-  | n + 1, f => fun e st =>
-    let rec' : Fn → M Int := fun g e' st' =>
-      let bad := st'.pos < st.pos || (st'.pos == st.pos && rank g ≥ rank f)
-      if bad then
-        dbgTrace s!"SPEC call {fnName f}@{st.pos} -> {fnName g}@{st'.pos}" fun _ => runChk n g e' st'
-      else runChk n g e' st'
-    match body rec' f e st with
-    | .ok r st' =>
-      let v := specViolations f st r st'
-      if v.isEmpty then .ok r st'
-      else dbgTrace s!"SPEC {fnName f} {v} pos {st.pos}->{st'.pos} len {st.len}->{st'.len} r={r}" fun _ => .ok r st'
-    | x => x
-
-def specRun (hex : String) : String :=
-  match parseHexBytes hex with
-  | some bs =>
-    let s := bs.toArray
-    if s.getD 0 0 == 95 && s.getD 1 0 == 90 then
-      match runChk (8 * (s.size + 1)) .encoding { s := s, fx := Fixes.all } { pos := 0, len := s.size } with
-      | .ok r st => s!"ok {r} {st.pos}"
-      | .crash k => "CRASH " ++ crashName k
-      | .fuel => "FUEL"
-    else "skip"
-  | none => "bad-op"
+def mangleCmd (kind arg params name : String) (scope : List String) : String :=
+  match mkLeaf kind arg, parseHexBytes params, parseHexBytes name, scope.mapM parseHexBytes with
+  | some leaf, some ps, some nm, some sc =>
+    let d : Decl := { scope := sc, name := nm, leaf := leaf, params := ps }
+    hexOfBytes (mangle d) ++ " " ++ hexOfBytes (qualifiedName d)
+  | _, _, _, _ => "bad-op"
 
 def handle (ws : List String) : String :=
   match ws with
   | ["dm", hex] => runOn Fixes.all hex
   | ["dmpre", hex] => runOn Fixes.none hex
-  | ["spec", hex] => specRun hex
+  | "mg" :: kind :: arg :: params :: name :: scope => mangleCmd kind arg params name scope
   | ["dmx", mask, hex] =>
     match parseMask mask with
     | some fx => runOn fx hex
